@@ -38,6 +38,66 @@ theorem query_stale (hK : ∀ i, opKey (build i) = keyOf i) (i j : ι) (hk : key
 
 end query
 
+
+/-! ### 1b. slots filled while tracing -/
+
+section ctx
+variable {ι κ ω : Type} [DecidableEq κ] (opKey : ω → κ) (keyOf : ι → κ) (build : ι → ω)
+
+/-- slot invariant: the content was produced by the builder, in one of the allowed contexts -/
+def SlotOk (allowed : ExecCtx → Prop) (slot : Option (Built ω)) : Prop :=
+  ∀ b, slot = some b → (∃ j, b.op = build j) ∧ allowed b.madeIn
+
+theorem queryCtx_ok (concrete : Bool) (allowed : ExecCtx → Prop) (c : ExecCtx)
+    (hF : ∀ i j, keyOf i = keyOf j → build i = build j) (hK : ∀ i, opKey (build i) = keyOf i)
+    (hallow : ∀ m, allowed m → usable m c = true)
+    (hnew : allowed (if concrete then ExecCtx.eager else c))
+    (slot : Option (Built ω)) (hs : SlotOk build allowed slot) (i : ι) :
+    (queryCtx concrete opKey keyOf build slot c i).2 = .ok (build i) ∧
+      SlotOk build allowed (queryCtx concrete opKey keyOf build slot c i).1 := by
+  cases slot with
+  | none =>
+    refine ⟨rfl, ?_⟩
+    intro b hb
+    simp only [queryCtx, Option.some.injEq] at hb
+    subst hb
+    exact ⟨⟨i, rfl⟩, hnew⟩
+  | some b0 =>
+    obtain ⟨⟨j, hj⟩, hal⟩ := hs b0 rfl
+    by_cases h : opKey b0.op = keyOf i
+    · have hji : build j = build i := hF j i (by rw [← hK j, ← hj]; exact h)
+      simp only [queryCtx, h, if_true, hallow _ hal]
+      exact ⟨by rw [hj, hji], fun b hb => by cases hb; exact ⟨⟨j, hj⟩, hal⟩⟩
+    · simp only [queryCtx, h, if_false]
+      refine ⟨trivial, ?_⟩
+      intro b hb
+      simp only [Option.some.injEq] at hb
+      subst hb
+      exact ⟨⟨i, rfl⟩, hnew⟩
+
+theorem runCtx_ok (concrete : Bool) (allowed : ExecCtx → Prop)
+    (hF : ∀ i j, keyOf i = keyOf j → build i = build j) (hK : ∀ i, opKey (build i) = keyOf i)
+    (h : List (ExecCtx × ι))
+    (hstep : ∀ p ∈ h, (∀ m, allowed m → usable m p.1 = true) ∧ allowed (if concrete then ExecCtx.eager else p.1)) :
+    ∀ slot, SlotOk build allowed slot → SlotOk build allowed (runCtx concrete opKey keyOf build slot h) := by
+  induction h with
+  | nil => intro slot hs; exact hs
+  | cons p ps ih =>
+    intro slot hs
+    obtain ⟨c, i⟩ := p
+    have hp := hstep (c, i) List.mem_cons_self
+    exact ih (fun q hq => hstep q (List.mem_cons_of_mem _ hq)) _
+      (queryCtx_ok opKey keyOf build concrete allowed c hF hK hp.1 hp.2 slot hs i).2
+
+theorem slotOk_none (allowed : ExecCtx → Prop) : SlotOk build allowed (none : Option (Built ω)) := by
+  intro b hb; cases hb
+
+theorem usable_eager (c : ExecCtx) : usable .eager c = true := by simp [usable]
+
+theorem usable_self (c : ExecCtx) : usable c c = true := by simp [usable]
+
+end ctx
+
 section tv
 variable {ι κ ωG ωP : Type} [DecidableEq κ] (S : TVSpec ι κ ωG ωP)
 
